@@ -1,0 +1,6 @@
+//go:build !verif
+
+package event
+
+// verifYield is a no-op in normal builds (see feed_verif.go).
+func verifYield(point int) {}
